@@ -263,6 +263,9 @@ fn not_args() -> Vec<G> {
         // a test that only makes sense after the goal to its left has bound its operand
         G::And(vec![call("q", vec![v("$Y")]), G::Cmp(Rel::Gt, v("$Y"), a())]),
         G::And(vec![call("r", vec![v("$Y")]), G::Cmp(Rel::Eq, v("$Y"), v("$X"))]),
+        // a call with two variables, one of them a body-only variable that has the *name* of the query's variable
+        call("e", vec![v("$X"), v("$Z")]),
+        call("e", vec![v("$Y"), v("$X")]),
     ]
 }
 
@@ -285,6 +288,8 @@ pub fn not(level: u8, f: &mut dyn FnMut(Case)) {
     for bdy in &bodies {
         let mut p = edb();
         p.push(rule("h", vec![v("$M")], G::And(vec![call("r", vec![v("$N")]), call("q", vec![v("$M")])])));
+        p.push(fact("e", vec![a(), b()]));
+        p.push(fact("e", vec![b(), b()]));
         p.push(rule("p", vec![v("$X")], bdy.clone()));
         f(Case { family: "not", prog: p.clone(), queries: queries.clone() });
         if bdy.leaves() <= 2 {
